@@ -994,6 +994,113 @@ fn flip_unicode_check(job: &JobSpec, r: &JobResult) -> Option<String> {
     }
 }
 
+fn script_units(ctx: &Ctx) -> u64 {
+    if ctx.tier == "thorough" {
+        60_000
+    } else {
+        4_000
+    }
+}
+
+fn sweep_units(ctx: &Ctx) -> u64 {
+    if ctx.tier == "thorough" {
+        ctx.corpus.len() as u64
+    } else {
+        700
+    }
+}
+
+impl LoggerEngine {
+    /// "All failing inputs from C01's generators": a corpus item — intact if the suite expects
+    /// an error from it, and torn / bit-flipped / look-alike-substituted variants of it — as
+    /// entry file and as imported file, with LF and CRLF line ends. Whatever error comes out
+    /// must name a file the Fs delivered, lie inside the text delivered under that name, and
+    /// render in both modes starting with `Error: <message>`; nothing may reach stdout/stderr.
+    fn error_sweep_unit(&self, ctx: &Ctx, unit: u64, progress: Progress) -> UnitResult {
+        let mut res = UnitResult::default();
+        let mut rng = Rng::new(mix(mix_str(ctx.seed, "logger-sweep"), unit));
+        let item = if ctx.tier == "thorough" { &ctx.corpus[unit as usize % ctx.corpus.len()] } else { &ctx.corpus[rng.usize_below(ctx.corpus.len())] };
+        res.bump("error_sweep_items", 1);
+        if item.input.len() > 4096 || item.input.is_empty() {
+            return res;
+        }
+        let ext = item.native_syntax();
+        let mut texts: Vec<(String, &'static str)> = vec![(item.input.clone(), "lf")];
+        if item.input.contains('\n') {
+            texts.push((item.input.replace('\n', "\r\n"), "crlf"));
+        }
+        let mut idx = 0u64;
+        for (text, _le) in texts {
+            let b = text.as_bytes();
+            // variants of the text: intact, torn, flipped, look-alike
+            let mut variants: Vec<Vec<u8>> = vec![b.to_vec()];
+            for _ in 0..10 {
+                variants.push(b[..rng.usize_below(b.len())].to_vec());
+            }
+            for _ in 0..8 {
+                variants.push(crate::simfs::apply_content_fault(b, &ContentFault::BitFlip(rng.usize_below(b.len()), rng.below(7) as u8)));
+            }
+            let spots: Vec<usize> = (0..b.len()).filter(|&i| crate::case::confusable_of(b[i]).is_some()).collect();
+            for _ in 0..4 {
+                if !spots.is_empty() {
+                    variants.push(crate::simfs::apply_content_fault(b, &ContentFault::Confusable(*rng.pick(&spots))));
+                }
+            }
+            for v in variants {
+                for via in ["entry", "import", "use"] {
+                    if via != "entry" && ext == "css" && rng.chance(0.5) {
+                        continue;
+                    }
+                    let mut job = JobSpec::default();
+                    job.cwd = "/w".into();
+                    job.eval_fuel = 50_000;
+                    job.depth_limit = 200;
+                    job.unicode = rng.chance(0.5);
+                    job.quiet = rng.chance(0.3);
+                    job.canon = if rng.chance(0.5) { CanonMode::Identity } else { CanonMode::Absolute };
+                    let target = format!("/w/x.{}", ext);
+                    if via == "entry" {
+                        job.files = vec![(target.clone(), v.clone())];
+                        job.entry = Entry::Path(if rng.chance(0.5) { target.clone() } else { format!("x.{}", ext) });
+                    } else {
+                        let main = if via == "import" { "// entry\n\n@import \"x\";\n" } else { "// entry\n@use \"x\";\n" };
+                        job.files = vec![("/w/main.scss".into(), main.as_bytes().to_vec()), (target.clone(), v.clone())];
+                        job.entry = Entry::Path("main.scss".into());
+                    }
+                    let i = idx;
+                    idx += 1;
+                    if !progress(i, &|| case_json(&job, &[], &None, "located")) {
+                        continue;
+                    }
+                    let r = run_job(&job);
+                    res.fold_job(&r);
+                    res.bump("evaluations", 1);
+                    res.bump("mode.located-sweep", 1);
+                    if let Outcome::Err(e) = &r.outcome {
+                        res.bump("errors_location_checked", 1);
+                        res.bump(&format!("sweep_errkind.{}", e.kind), 1);
+                        res.distinct.push(hash_bytes(23, format!("{}|{}|{}", e.message, via, ext).as_bytes()));
+                        if via != "entry" && e.kind == "parse" && normalize("/w", &e.file) == target {
+                            res.bump("probe.error_located_in_imported_file", 1);
+                        }
+                    }
+                    let mut viol = judge(&job, &[], &None, "located", &r);
+                    if let Some(p) = flip_unicode_check(&job, &r) {
+                        viol.push(("render-mode-mismatch".into(), p));
+                    }
+                    if !viol.is_empty() {
+                        let cj = case_json(&job, &[], &None, "located");
+                        for (class, detail) in viol {
+                            res.violations.push(Violation { property: "C19".into(), class, detail: format!("{}\noutcome: {}", detail, r.outcome.brief()), case: cj.clone() });
+                        }
+                    }
+                }
+            }
+        }
+        res
+    }
+}
+
 impl Engine for LoggerEngine {
     fn name(&self) -> &'static str {
         "logger"
@@ -1005,13 +1112,12 @@ impl Engine for LoggerEngine {
         "exploration"
     }
     fn units(&self, ctx: &Ctx) -> u64 {
-        if ctx.tier == "thorough" {
-            60_000
-        } else {
-            4_000
-        }
+        script_units(ctx) + sweep_units(ctx)
     }
     fn run_unit(&self, ctx: &Ctx, unit: u64, progress: Progress) -> UnitResult {
+        if unit >= script_units(ctx) {
+            return self.error_sweep_unit(ctx, unit - script_units(ctx), progress);
+        }
         let mut res = UnitResult::default();
         let mut rng = Rng::new(mix(mix_str(ctx.seed, "logger"), unit));
         let root = "/w".to_string();
@@ -1220,7 +1326,7 @@ impl Engine for LoggerEngine {
         out
     }
     fn rule(&self) -> String {
-        "seeded logger scripts over a closed grammar (debug | warn | for | each | while | if/else | style rule | include of a mixin with or without @content | function call | @import (some files imported 3 times) | @use of a module, optional @error), 1-4 files, SCSS and indented syntax; every message is made unique per execution by interpolating the enclosing loop indices; the generator executes its own tree to obtain the exact expected delivery list (kind, file, line, message). Each script is run plain (exact list), quiet (nothing may be delivered, same result), with read_err/vanish faults on imported files (delivered list must be a prefix) and with torn/bit-flipped/zero-tailed files (only error location, rendering and routing are checked). Every error met is checked for a location inside the text the Fs delivered under the name the error carries and is rendered in both modes. Non-trivial = scripts with at least one expected delivery or a reachable @error; distinct by script text and options.".into()
+        "seeded logger scripts over a closed grammar (debug | warn | for | each | while | if/else | style rule | include of a mixin with or without @content | function call | @import (some files imported 3 times) | @use of a module, optional @error), 1-4 files, SCSS and indented syntax; every message is made unique per execution by interpolating the enclosing loop indices; the generator executes its own tree to obtain the exact expected delivery list (kind, file, line, message). Each script is run plain (exact list), quiet (nothing may be delivered, same result), with read_err/vanish faults on imported files (delivered list must be a prefix) and with torn/bit-flipped/zero-tailed files (only error location, rendering and routing are checked). Every error met is checked for a location inside the text the Fs delivered under the name the error carries and is rendered in both modes. A second kind of unit sweeps the corpus for failing inputs (items the suite expects an error from, and torn / bit-flipped / look-alike-substituted variants of any item, LF and CRLF, as entry and as imported file) and applies the same error checks. Non-trivial = scripts with at least one expected delivery or a reachable @error; distinct by script text and options.".into()
     }
     fn assumptions(&self) -> Vec<String> {
         vec![
